@@ -827,6 +827,7 @@ func (c *wsConn) handleWsConn(ctx context.Context) {
 	c.pongs = make(chan struct{}, 1)
 
 	c.registerCh = make(chan outChanReg)
+	vhook("main.start", c, "q", c.requests)
 	defer vhook("main.exited", c)
 	defer close(c.exiting)
 
